@@ -800,8 +800,14 @@ def run(chk):
                 '(1,2,4,8 branches); random walks of <= 6 calls over {T, hard, gumbel, disable, several options '
                 'at once, train, eval, forward, coefficient write} on stand-alone quantizers/combiners '
                 '(1..8 alternatives, 1..16 channels, T in 0.05..20, gaps >= 0.05) and on the quantizers / '
-                'combiners of small MPS (per-layer and per-channel, residual add = shared quantizers) and '
-                'SuperNet models; non-trivial = at least two calls and one forward; distinct = distinct case')
+                'combiners of small MPS models (per-layer and per-channel; families: residual add = shared '
+                'quantizers, a layer invoked twice = its own output quantizer as input quantizer, depthwise '
+                'conv sharing its producer\'s quantizers, Conv1d) and SuperNet models; in MPS models every read '
+                'of a decision\'s coefficients during a forward is recorded; export() failures are classified by '
+                'the layer being exported; non-trivial = at least two calls and one forward; distinct = distinct case')
+    chk.assumptions.append('reading: "export() materialises the arg-max alternative" = which precision every decision '
+                           '(every channel) ends up under, and that export() returns a network; not the function the '
+                           'exported network computes (C02)')
     chk.trusted.append('float32 softmax does not collapse neighbours for gap/T >= 0.0025 nor underflow for '
                        '(max-min)/T <= 40 (generator bounds): only one-hotness and arg-max are compared')
     chk.trusted.append('torch.argmax returns the first maximal index (documented); Gumbel noise is not modelled '
